@@ -115,3 +115,8 @@ def execute(sc, workdir):
 def finding_key(entry, sc):
     # entry = ["C03", clause, cmd, rank, bank, have, need]
     return "%s:%s" % (entry[1], entry[2])
+
+
+def shrink(sc):
+    from .corecommon import shrink_candidates
+    return shrink_candidates(sc)
